@@ -170,6 +170,19 @@ def build_lock():
         fh.close()
 
 
+def _decl_at(path, line):
+    """'(name)' of the theorem / definition enclosing a line of a Lean file of the project ('' when not found)"""
+    try:
+        src = open(path if os.path.isabs(path) else os.path.join(LEAN, path)).read().split('\n')
+        for i in range(min(int(line), len(src)) - 1, -1, -1):
+            m = re.match(r'\s*(?:@\[[^\]]*\]\s*)?(?:private\s+|protected\s+|noncomputable\s+)*(theorem|lemma|example|def|instance|abbrev)\b\s*(\S*)', src[i])
+            if m:
+                return f'({m.group(2) if m.group(1) != "example" and m.group(2) else "example@" + str(i + 1)})'
+    except (OSError, ValueError):
+        pass
+    return ''
+
+
 def lean_check(prop_mod, extra_mods=(), thorough=False, timeout=1500):
     """Build the property's theorem file (kernel re-checks everything it depends on that changed),
     re-elaborate the property file itself, audit sources and axioms."""
@@ -197,7 +210,7 @@ def lean_check(prop_mod, extra_mods=(), thorough=False, timeout=1500):
     if p.returncode != 0:
         res.ok = False
         bad = set(re.findall(r'error: (\S+\.lean):(\d+)', p.stdout + p.stderr))
-        res.failed.append(f'{prop_mod}:build-failed ' + ' '.join(f'{os.path.basename(f)}:{l}' for f, l in sorted(bad)[:6]))
+        res.failed.append(f'{prop_mod}:build-failed ' + ' '.join(f'{os.path.basename(f)}:{l}{_decl_at(f, l)}' for f, l in sorted(bad)[:6]))
         # which theorems of the property file are affected? try to elaborate the file for messages
         res.wall = time.time() - t0
         return res
